@@ -12,6 +12,8 @@ BIN = os.path.join(LEAN_DIR, ".lake", "build", "bin")
 
 def driver_for(entry):
     """which of the three drivers serves an entry point (see lean/lakefile.toml)"""
+    if entry.startswith("GenStog."):
+        return "drvs", "MainStog.lean"
     if entry.startswith("Stog.") or entry.startswith("Wf."):
         return "drvm", "MainModel.lean"
     if entry.startswith("Model.") or entry.startswith("Cfg."):
@@ -66,6 +68,18 @@ def enc_kw(kw):
 
 def request(rid, entry, kw, args, junk_fill=0.0):
     return ";".join([str(rid), entry, enc_kw(kw), str(f2b(junk_fill))] + [enc_arg(a) for a in args])
+
+
+def gen_entries():
+    """entry points of the Float reading of the code generated from stog.py / pre_proc.py that the driver `drvs` serves right now
+    (empty when the driver did not build or the translator refused the methods)"""
+    import json
+    if not os.path.exists(os.path.join(BIN, "drvs")):
+        return []
+    try:
+        return list(json.load(open(os.path.join(LEAN_DIR, "PystogVerif", "Gen", "stog_report.json"))).get("driver_entries", []))
+    except Exception:  # noqa: BLE001
+        return []
 
 
 class ModelError(Exception):
